@@ -350,8 +350,21 @@ func (v *violCtx) pre() {
 	case "time_future":
 		now := uint32(time.Now().Unix())
 		v.hdr.Time = now + consensus.MaxFutureBlockTime + 90
-		if arg%2 == 1 {
+		switch mod(arg, 8) {
+		case 1, 3:
 			v.hdr.Time = now + consensus.MaxFutureBlockTime - 90
+		case 4: // so far ahead that the difference to the clock no longer fits a signed 32-bit number
+			v.hdr.Time = now + 1<<31
+			v.sub = "now+2^31"
+		case 5:
+			v.hdr.Time = now + 1<<31 + 3600
+			v.sub = "now+2^31+1h"
+		case 6:
+			v.hdr.Time = 0xffffffff
+			v.sub = "2^32-1"
+		case 7:
+			v.hdr.Time = now + 1<<31 - 100
+			v.sub = "now+2^31-100"
 		}
 		v.effective = true
 	case "version":
